@@ -26,12 +26,12 @@ func init() {
 		Run:        runC08,
 		Prefix:     c08Prefix,
 		Assumptions: []string{
-			"well-formedness as stated by the property: targets exist, _catch defined, flags in range, no self-move, every move cycle passes a HALT; additionally _catch contains no LOAD and depth stays below state.MaxLevel",
+			"well-formedness as stated by the property: targets exist, _catch defined, flags in range, no self-move, every move cycle passes a HALT; additionally _catch contains no LOAD; one run in 80 of the generated kind is a two-node application whose nodes descend into each other, driven to and beyond 128 stack entries",
 			"panics of the harness' own stubs are infrastructure errors, not violations",
 		},
 		Real:       append(append([]string{}, realAll...), "db/fs (compiled against the simulated os)", "db/postgres", "asm (assembling the examples)"),
 		Stub:       append(append([]string{}, stubAll...), "OS filesystem (simfs)", "Postgres server (pgfake)"),
-		FaultKinds: []string{"restart", "ext_error", "ext_oversize", "client_garbage", "client_browse_oob"},
+		FaultKinds: []string{"restart", "ext_error", "ext_oversize", "client_garbage", "client_browse_oob", "first_func_error"},
 	})
 }
 
@@ -90,6 +90,7 @@ func runC08(c *core.Ctx) *core.Outcome {
 	var a *app.App
 	var cfg world.Cfg
 	var sweep [][]byte
+	deepReq := 0
 	kind := 0
 	if len(exs) > 0 {
 		kind = t.Weighted(6, 3, 1)
@@ -103,6 +104,13 @@ func runC08(c *core.Ctx) *core.Outcome {
 		p := fullProfile(t, cfg.FlagCount)
 		p.UpAtRoot = t.Chance(1, 3)
 		p.BigValues = t.Chance(1, 10)
+		if t.Chance(1, 80) {
+			// a client that keeps descending: nothing in the property bounds the depth of a well-formed application
+			a = deepApp(t)
+			deepReq = t.Range(120, 140)
+			o.Probes["deep_run"]++
+			break
+		}
 		a = app.Generate(t, p)
 		if err := a.Validate(); err != nil {
 			panic("generator produced ill-formed app: " + err.Error())
@@ -136,6 +144,7 @@ func runC08(c *core.Ctx) *core.Outcome {
 		maxReq = 24
 	}
 	nreq := t.Range(2, maxReq)
+	nreq += deepReq
 	if t.Chance(1, 5) {
 		if err := w.UseDbResource(); err != nil {
 			panic("cannot build DbResource: " + err.Error())
@@ -154,14 +163,24 @@ func runC08(c *core.Ctx) *core.Outcome {
 				cur = p[len(p)-1]
 			}
 			in = genInput(t, a, cur, 6)
+			if i <= deepReq && !t.Chance(1, 40) {
+				in = []byte("1")
+			}
 			if cfg.ResetOnEmpty && t.Chance(1, 4) {
 				in = []byte{}
 				o.Probes["empty_input_with_reset_on_empty"]++
 			}
 		}
 		fresh := mode == 1 || (mode == 2 && t.Chance(1, 2))
+		if cfg.First && t.Chance(1, 8) {
+			s.FailFirstNext = true
+		}
 		t.End()
+		ff := s.FirstFailed
 		st := s.Request(in, fresh)
+		if s.FirstFailed > ff {
+			o.Faults["first_func_error"]++
+		}
 		o.Counts["requests"]++
 		if st.Fresh && i > 0 {
 			o.Faults["restart"]++
@@ -174,12 +193,17 @@ func runC08(c *core.Ctx) *core.Outcome {
 			return finishC08(o, c, w, exName).Fail("panic:"+st.PanicAt, i, map[string]string{"site": st.PanicAt},
 				"request %d input %s: library panicked in %s: %s", i, short(string(in)), st.PanicAt, st.Panic)
 		}
+		if deepReq > 0 {
+			if p, _ := s.Position(); len(p) >= 127 {
+				o.Probes["deep_request_at_127_or_more_entries"]++
+			}
+		}
 		o.States = append(o.States, stateHash(s))
 		if cl, msg := consistency(s.St, s.Ca); cl != "" {
 			return finishC08(o, c, w, exName).Fail(cl, i, nil, "after request %d input %s: %s", i, short(string(in)), msg)
 		}
 		// the session can still be saved, loaded and continued
-		if s.St != nil && s.Ca != nil && t.Chance(1, 3) {
+		if s.St != nil && s.Ca != nil && (t.Chance(1, 3) || s.FirstFailed > ff) {
 			if v := probeContinue(w, s, i); v != nil {
 				o.V = v
 				return finishC08(o, c, w, exName)
